@@ -1003,7 +1003,7 @@ RULE = ("two case kinds from one PRNG. 'cc': a cryoCAT particle list (N in 1..30
         "order; version passed or SNIFFED from the columns; coordinates float or whole numbers held as int64 / written without decimal point) imported from a "
         "DataFrame (M) and from the file (F); in a share the same DataFrame object is imported twice (M2, frame compared with a pristine copy) and the same file path is "
         "rewritten with the rows reversed and imported again (F2); import -> drop/reorder rows -> create_relion_df(use_original_entries=True[, keep_all_entries=True]) "
-        "(U; the user's row selection with or without reset_index); relion2stopgap from the file (H). Half of the imports that need no keyword (D, F, F2, M) go through the "
+        "(U; the user's row selection with or without reset_index); relion2stopgap from the file (H). In 40 % of the files with an optics block the data_optics block is written AFTER data_particles (legal STAR). Half of the imports that need no keyword (D, F, F2, M) go through the "
         "factory `Motl.load(x, 'relion')` / `Motl.load(x, motl_type='relion')` instead of the constructor. An angle class sits on both sides of the threshold (1e-7 rad) at "
         "which scipy's as_euler declares gimbal lock; inside it rotations are judged with the conditioned allowance 3 sin(theta) per as_euler call. ROW LABELS (round 5): cc lists get non-default labels the way users get "
         "them - cryoCAT's own remove_feature (scalar / list / array argument), a slice, a re-ordering, pd.concat (duplicated labels) - before create_relion_df / write_out, and the "
@@ -1138,26 +1138,37 @@ def _fmt(v):
     return v if isinstance(v, str) else (str(v) if isinstance(v, int) else "%.6f" % v)
 
 
-def write_relion_star(path, ver, cols, rows, optics_px=None, style=0):
-    """RELION-like layout (as relion itself writes it: `# version`, aligned cells), not cryoCAT's writer"""
+def write_relion_star(path, ver, cols, rows, optics_px=None, style=0, optics_last=False):
+    """RELION-like layout (as relion itself writes it: `# version`, aligned cells), not cryoCAT's writer. `optics_last`: the data_optics block is placed AFTER the
+    particle block - legal STAR (blocks are named, their order is free) and what an independent writer may emit (round 8)"""
     sep = ["  ", "\t", " "][style % 3]
-    with open(path, "w") as f:
-        if ver >= 31:
-            f.write("\n# version 30001\n")
-        if optics_px is not None:
-            f.write("\ndata_optics\n\nloop_ \n")
-            oc = ["rlnOpticsGroupName", "rlnOpticsGroup", "rlnSphericalAberration", "rlnVoltage", "rlnImagePixelSize", "rlnImageSize", "rlnImageDimensionality"]
-            for i, c in enumerate(oc, 1):
-                f.write(f"_{c} #{i} \n")
-            f.write(sep.join(["opticsGroup1", "1", "2.700000", "300.000000", "%.6f" % optics_px, "64", "3"]) + "\n \n")
-            if ver >= 31:
-                f.write("\n# version 30001\n")
+
+    def optics(f):
+        f.write("\ndata_optics\n\nloop_ \n")
+        oc = ["rlnOpticsGroupName", "rlnOpticsGroup", "rlnSphericalAberration", "rlnVoltage", "rlnImagePixelSize", "rlnImageSize", "rlnImageDimensionality"]
+        for i, c in enumerate(oc, 1):
+            f.write(f"_{c} #{i} \n")
+        f.write(sep.join(["opticsGroup1", "1", "2.700000", "300.000000", "%.6f" % optics_px, "64", "3"]) + "\n \n")
+
+    def particles(f):
         f.write("\n" + ("data_" if ver == 30 else "data_particles") + "\n\nloop_ \n")
         for i, c in enumerate(cols, 1):
             f.write(f"_{c} #{i} \n")
         for r in rows:
             f.write(sep.join(_fmt(v).rjust(12) if style % 2 == 0 else _fmt(v) for v in r) + "\n")
         f.write(" \n")
+    with open(path, "w") as f:
+        if ver >= 31:
+            f.write("\n# version 30001\n")
+        if optics_px is not None and not optics_last:
+            optics(f)
+            if ver >= 31:
+                f.write("\n# version 30001\n")
+        particles(f)
+        if optics_px is not None and optics_last:
+            if ver >= 31:
+                f.write("\n# version 30001\n")
+            optics(f)
 
 
 # ------------------------------------------------------------------ generators
@@ -1450,7 +1461,8 @@ def gen_rln(rng, tier, force=None):
     case = dict(kind="rln", ver=ver, px=f2b(px), pxs=[f2b(v) for v in pxs], pxsrc=pxsrc, optics=optics, rows=rows, tomo_names=tn, sub_names=sn,
                 tomo_ids=tids, sub_ids=subs, halfsets=halfsets, cls=cl, angles=acls, style=rng.randint(0, 5), tomo_col=tomo_col, ver_arg=ver_arg,
                 omit_px=omit_px, coord_int=coord_int, all_int=all_int, reuse=force.get("reuse", rng.random() < 0.35), colorder=None, uoe=None, sg=False,
-                idx=idx, labels=labels, px_arg=px_arg, loader=rng.choice(LOADERS))
+                idx=idx, labels=labels, px_arg=px_arg, loader=rng.choice(LOADERS),
+                optics_last=bool(with_optics and rng.random() < 0.4))   # round 8: data_optics written AFTER data_particles (legal STAR; the version comes from the particle block)
     if force.get("shuffle", rng.random() < 0.4):
         k = len(rln_columns(case))
         perm = list(range(k)); rng.shuffle(perm)
@@ -1549,6 +1561,8 @@ def shrink(case):
             yield dict(case, idx="default", labels=None)
         if case.get("loader", "ctor") != "ctor":
             yield dict(case, loader="ctor")
+        if case.get("optics_last"):
+            yield dict(case, optics_last=False)
         if case.get("uoe") and not case["uoe"].get("reset", True):
             yield dict(case, uoe=dict(case["uoe"], reset=True))
         if case.get("ver_arg") == "sniff":
@@ -1943,7 +1957,7 @@ def run_impl(case):
             path = os.path.join(td, "in.star")
             rows = [[data[c][i] for c in cols] for i in range(n)]
             with_optics = case["optics"] and ver >= 31
-            write_relion_star(path, ver, cols, rows, optics_px=(px if with_optics else None), style=case.get("style", 0))
+            write_relion_star(path, ver, cols, rows, optics_px=(px if with_optics else None), style=case.get("style", 0), optics_last=bool(case.get("optics_last")))
             fk = {} if (use_col or with_optics or case.get("omit_px")) else dict(pixel_size=px)
             if case.get("px_arg") is not None and (use_col or with_optics):    # argument AND column / optics block: the argument wins
                 fk = dict(pixel_size=b2f(case["px_arg"]))
@@ -1955,7 +1969,7 @@ def run_impl(case):
                     return o
                 _attempt(out, "H", h_)
             if reuse:   # G2: the same path, legitimately rewritten (rows reversed), read again
-                write_relion_star(path, ver, cols, rows[::-1], optics_px=(px if with_optics else None), style=case.get("style", 0) + 1)
+                write_relion_star(path, ver, cols, rows[::-1], optics_px=(px if with_optics else None), style=case.get("style", 0) + 1, optics_last=bool(case.get("optics_last")))
                 _attempt(out, "F2", lambda: _motl_obs(_load(cryomotl, case, path, fk)))
     return out
 
@@ -2437,6 +2451,7 @@ def stats(case, obs, resps):
         d["version_given"] = case.get("ver_arg", "explicit")
         d["coordinate_dtype"] = "all-columns-int64" if case.get("all_int") else ("int64" if case.get("coord_int") else "float64")
         d["row_labels"] = case.get("idx", "default")
+        d["optics_block_position"] = "none" if not (case["optics"] and case["ver"] >= 31) else ("after-particles" if case.get("optics_last") else "before-particles")
         d["pixel_size_argument_and_data"] = "both" if case.get("px_arg") is not None else "one"
         d["same_frame_twice+same_path_rewritten"] = str(bool(case.get("reuse")))
         d["use_original_entries"] = "no" if not case.get("uoe") else (("keep_all" if case["uoe"].get("keep_all") else "yes") + ("" if case["uoe"].get("reset", True) else "+labels-kept"))
